@@ -255,6 +255,42 @@ class Spy(TrialScheduler):
         return getattr(self.__dict__["inner"], name)
 
 
+def spy_on(inner, mon):
+    """instance-level spy: wraps the notification methods of a REAL scheduler object so that the
+    monitor sees every call, while the tuner still sees the real object (isinstance checks such as
+    the checkpoint-removal mixin keep working)"""
+    orig = dict(add=inner.on_trial_add, result=inner.on_trial_result, remove=inner.on_trial_remove,
+                complete=inner.on_trial_complete, error=inner.on_trial_error)
+
+    def on_trial_add(trial):
+        mon.s_add(trial.trial_id)
+        return orig["add"](trial)
+
+    def on_trial_result(trial, result):
+        d = orig["result"](trial, result)
+        mon.s_result(trial.trial_id, result, d)
+        return d
+
+    def on_trial_remove(trial):
+        mon.s_remove(trial.trial_id)
+        return orig["remove"](trial)
+
+    def on_trial_complete(trial, result):
+        mon.s_complete(trial.trial_id, inner.backend)
+        return orig["complete"](trial, result)
+
+    def on_trial_error(trial):
+        mon.s_error(trial.trial_id)
+        return orig["error"](trial)
+
+    inner.on_trial_add = on_trial_add
+    inner.on_trial_result = on_trial_result
+    inner.on_trial_remove = on_trial_remove
+    inner.on_trial_complete = on_trial_complete
+    inner.on_trial_error = on_trial_error
+    return inner
+
+
 class ScriptBackend(TrialBackend):
     def __init__(self, sym, mon, R=2, K=2, J=1, max_fail=0, Z=1, P=12, checkpointing=True,
                  delete_checkpoints=False, value_fn=None, metric="m", resource="r", R_of=None):
